@@ -220,6 +220,29 @@ def main(argv=None):
             else:
                 violations.append((mod, un, o))
 
+    # ---------------------------------------------------------------- sampled proof audit (A-ENGINE attack ii)
+    # Units whose obligations were ALL proved are evaluated natively on the real code for a few pseudo-random +
+    # boundary instances.  A native failure of a proved contract means the executor or a lowering is unsound:
+    # that is a checker crash (exit 3), never a pass and never a property violation.
+    audit_units = []
+    for (mod, uname), r in zip(jobs, results):
+        meta = metas[uname]
+        if r.status == "ok" and r.obligations and all(o.status == "proved" for o in r.obligations) and not meta.get("canary") and not meta.get("ghost"):
+            audit_units.append((mod, uname))
+    audit_evals = 0
+    if audit_units and not a.unit:
+        import random as _random
+        rr = _random.Random(seed + 99)
+        cap = 48 if tier == "quick" else len(audit_units)
+        if len(audit_units) > cap:
+            audit_units = rr.sample(audit_units, cap)
+        n_audit = 6 if tier == "quick" else 60
+        for (mod, un), (ne, fail) in zip(audit_units, runner.run_adjudications(audit_units, n_audit, seed + 1, a.procs or None)):
+            audit_evals += ne
+            if fail is not None:
+                crashes.append((un, "PROOF AUDIT FAILED: every obligation of this unit was proved, yet the native run on the real code fails '%s' for model %s -- the executor/lowering is unsound here" % (
+                    fail.get("name", fail.get("error")), json.dumps(runner._model_json(fail.get("model")) if fail.get("model") else None)[:600])))
+
     # ---------------------------------------------------------------- bounded stand-ins / extra native parts
     bounded_info = None
     if spec.get("bounded") and not a.unit:
@@ -306,6 +329,8 @@ def main(argv=None):
         "canaries_refuted": canaries_refuted,
         "bounded_units": bounded_units,
         "bounded_unit_obligations_not_counted": n_bounded_ob,
+        "proof_audit": {"units_sampled": len(audit_units), "native_evaluations": audit_evals,
+                        "note": "fully proved units re-evaluated natively on random+boundary instances; a failure is a checker crash"},
         "bounded_adjudication": {"units": [u for _, u in adj_units], "native_evaluations": adj_evals,
                                  "note": "undecided obligations are searched natively (pseudo-random + boundary inputs); never counted as discharged"},
         "known_findings": sorted(printed_known),
